@@ -4,11 +4,13 @@
     [p] is the URI path of the request ([request.uri().path()]), any list of numbers.
     [percent_decode p] is its percent-decoding as BYTES (percent_encoding's rule).
     [sanitize_path] is the path part of [sanitize_request], [request_fs_path] the file path
-    [get_response] builds, [serve] the pipeline from [handle_cache] down to [read_file];
-    [run_history] (Model/PathSanPipe.v) runs [serve] over a history of requests with the response
-    cache threaded through — the component that is compared with the real [kvarn::handle_cache] on a
-    fixture tree on every run. *)
-From KV Require Import Bytes PathSan PathSanProofs PathSanPipe PathSanPipeProofs.
+    [get_response] builds, [serve_st] (Model/PathSanServe.v) the pipeline from [handle_cache] down to
+    [read_file] / [error::default] with the file cache threaded through, [serve] the same without a
+    file cache; [run_history] (Model/PathSanPipe.v) runs [serve_st] over a history of requests with
+    the response cache and the file cache threaded through — the component that is compared with the
+    real [kvarn::handle_cache] / [kvarn::handle_connection] on a fixture tree on every run, including
+    the list of objects the operating system was asked to open (inotify). *)
+From KV Require Import Bytes PathSan PathSanProofs PathSanServe PathSanServeProofs PathSanPipe PathSanPipeProofs.
 Open Scope N_scope.
 
 (** 1a. Lexical confinement.  An accepted path decodes to "/" ++ t; split t on '/' into
@@ -80,6 +82,79 @@ Theorem unsafe_is_400_and_silent :
     r_status r = 400 /\ r_body r = None /\ r_from_cache r = false /\ silent ev.
 Proof. exact unsafe_is_400_and_silent_lemma. Qed.
 
+(** 2c. The same with the file cache threaded through, in every file-cache state: the only path string
+    that can be handed to the operating system is the operator's error page for status 400
+    ([error_path h 400] — the request does not occur in it), and the file cache is unchanged under
+    every other path: the requested path is neither read nor looked up nor remembered. *)
+Theorem unsafe_reads_only_the_error_page :
+  forall (h : host_cfg) (rd : bytes -> option bytes) (on : bool) (fc : fcache) (m : meth) (ov : option bytes)
+         (cached : option reply) (p : bytes),
+    unsafe (percent_decode p) ->
+    let '(r, ev, fc', os) := serve_st h rd on fc m ov cached p in
+    r_status r = 400 /\ r_body r = None /\ r_from_cache r = false /\ silent ev /\
+    Forall (fun f => f = error_path h 400) os /\
+    (forall k, k <> error_path h 400 -> fc_get k fc' = fc_get k fc).
+Proof. exact unsafe_is_400_and_silent_st_lemma. Qed.
+
+(** 2d. The file cache is transparent: whenever every entry of the file cache is what the operating
+    system returns for that path string (true of the empty cache and preserved by every step — the
+    files do not change while the server runs), the pipeline answers exactly as without a file cache,
+    leaves such a cache, and hands to the operating system only paths that occur in the read events
+    of its trace. *)
+Theorem fcache_transparent :
+  forall (h : host_cfg) (rd : bytes -> option bytes) (on : bool) (fc : fcache) (m : meth) (ov : option bytes)
+         (cached : option reply) (p : bytes),
+    fc_coherent rd fc ->
+    let '(r, ev, fc', os) := serve_st h rd on fc m ov cached p in
+    (r, ev) = serve h rd m ov cached p /\ fc_coherent rd fc' /\ incl os (read_paths ev).
+Proof. exact fcache_transparent_lemma. Qed.
+
+(** 2e. Error pages: every error-page read of the pipeline goes to [error_path h (r_status r)] =
+    [<host.path>/<errors_dir>/<status>.html], a function of the host and of the status code only, and
+    an error-page content in a computed reply is what that path holds. *)
+Theorem error_page_path_is_constant :
+  forall (h : host_cfg) (rd : bytes -> option bytes) (on : bool) (fc : fcache) (m : meth) (ov : option bytes)
+         (cached : option reply) (p : bytes),
+    let '(r, ev, _, _) := serve_st h rd on fc m ov cached p in
+    forall path, In (EErrRead path) ev -> path = error_path h (r_status r).
+Proof. exact error_page_path_lemma. Qed.
+
+Theorem error_page_content :
+  forall (h : host_cfg) (fs : bytes -> option bytes) (m : meth) (ov : option bytes) (p : bytes)
+         (r : reply) (ev : list event) (c : bytes),
+    serve h fs m ov None p = (r, ev) -> r_err r = Some c -> fs (error_path h (r_status r)) = Some c.
+Proof. exact err_content_lemma. Qed.
+
+(** 2f. What the operating system is asked to open.  [opened tree f] is the object the path string [f] names
+    in the tree (the names from the root, and whether it is a directory), [None] when the open fails.  For a
+    host with benign options, over ANY tree in which the public directory is the object [rev stP], in any
+    file-cache and response-cache state, for any request: every object opened while the request is handled
+    is the operator's error page for the status of the reply, a directory (a directory has no content: reading
+    it fails), or an object strictly below the public directory.  (The harness observes exactly this list with
+    inotify on every run.) *)
+Theorem opened_objects_confined :
+  forall (h : host_cfg) (rd : bytes -> option bytes) (tree : node) (on : bool) (fc : fcache) (m : meth) (ov : option bytes)
+         (cached : option reply) (p : bytes) (r : reply) (ev : list event) (fc' : fcache) (os : list bytes)
+         (f : bytes) (stP names : list bytes) (isdir : bool),
+    benign_host h ->
+    serve_st h rd on fc m ov cached p = (r, ev, fc', os) -> In f os ->
+    cwalk tree [] (segments (h_path h ++ [c_slash] ++ h_public h)) = Some stP ->
+    opened tree f = Some (names, isdir) ->
+    f = error_path h (r_status r) \/ isdir = true \/
+    exists rel : list bytes, rel <> [] /\ Forall (fun s => proper_name s = true) rel /\ names = rev stP ++ rel.
+Proof. exact opened_objects_confined_lemma. Qed.
+
+(** 2g. The two descriptions of path resolution agree: a content read through [read_path] (the zipper walk the
+    content theorems 1b/1c/6 use) is the content of the regular file that [opened] (the walk by names that 2f
+    and the inotify observation use) says the path names. *)
+Theorem read_is_opened :
+  forall (tree : node) (f c : bytes),
+    starts_with [c_slash] f = true ->
+    read_path (tree, []) (tree, []) f = Some c ->
+    forall (names : list bytes) (isdir : bool),
+      opened tree f = Some (names, isdir) -> isdir = false /\ descend tree names = Some (File c).
+Proof. exact read_is_opened. Qed.
+
 (** 3a. An accepted path contains no "./", neither raw nor decoded; so it is different from every
     key that contains "./" — in particular from every internal route "/./…". *)
 Theorem internal_routes_unreachable : forall p : bytes,
@@ -111,47 +186,109 @@ Theorem accepted_path_never_panics : forall host public p : bytes,
   sanitize_path p = Ok tt -> request_fs_path host public p <> Panic.
 Proof. exact request_fs_path_no_panic. Qed.
 
-(** 6. All histories.  [run_history c [] ops] is the list of answers of the fixture host [c] (any
-    host path, public directory, default extensions or none, response cache on or off, any table of
-    path-bound handlers, the file system being ANY tree without symbolic links) to ANY sequence of
-    requests (any method, target, Origin kind) and of steps that copy a stored cache entry to an
-    arbitrary other key.  Every body in every answer — whether computed or served from the cache — is
-    the error page, the CORS refusal, empty, the body of one of the operator's handlers, or the content
-    of a file reached from the public directory by descending through child names. *)
+(** 6. All histories, through every front end.  A front end [f] says how a request target (HTTP/1.1) or
+    [:path] (HTTP/2) becomes the URI of the request, which [Origin] headers count as the site's own, what a
+    client can put on the connection and whether HEAD answers arrive without body ([front_inproc], [front_h1],
+    [front_h2], [front_h2raw] are the four that are run against the real code; the theorem holds for ANY).
+    [run_history_with f (fmt_std c) c empty_state ops] is the list of answers of the fixture host [c]
+    (any host path, public directory, errors directory, default extensions or none, response cache on
+    or off, file cache on or off, file system enabled or not, any table of path-bound handlers, the
+    file system being ANY tree without symbolic links) to ANY sequence of requests (any method, any
+    request target in any form, Origin kind) and of steps that copy a stored cache entry to an
+    arbitrary other key.  Every body in every answer — whether computed or served from the response
+    cache, read from disk or from the file cache — is the generated error page, the CORS refusal,
+    empty, the body of one of the operator's handlers, the content of a file reached from the public
+    directory by descending through child names, or the content of one of the operator's error pages
+    ([error_path] of the host and a status code). *)
 Theorem history_bodies_confined :
-  forall (c : pcfg) (root cwd P : pos) (ops : list op),
+  forall (f : front) (c : pcfg) (root cwd P : pos) (ops : list op),
     benign_host (pc_host c) -> wf_pos root -> wf_pos cwd -> pc_fs c = read_path root cwd ->
     resolve_path root cwd (h_path (pc_host c) ++ [c_slash] ++ h_public (pc_host c)) = Some P ->
-    Forall (answer_ok c P) (run_history c [] ops).
+    Forall (answer_ok c P) (run_history_with f (fmt_std c) c empty_state ops).
 Proof. exact history_bodies_confined_lemma. Qed.
 
-(** 7. In every cache state (whatever earlier requests and alias steps put there), a request whose
-    percent-decoded path is unsafe is answered 400 with the error page, no Prepare extension is
-    consulted or run (empty log), and the cache is left as it was. *)
+(** 7. In every state (whatever earlier requests and alias steps put into the response cache, any
+    coherent file cache), through every front end, a request whose percent-decoded path is unsafe is
+    answered 400 with the generated page or the operator's page for status 400, no Prepare extension is
+    consulted or run (empty log), the only object the operating system may have been asked to open is that
+    page, the response cache is left as it was and the file cache changes at most under that page's path. *)
 Theorem unsafe_request_is_400_in_every_state :
-  forall (c : pcfg) (cache : cache_t) (m t : bytes) (k : N) (p : bytes),
-    starts_with [c_slash] t = true -> uri_path t = Some p -> unsafe (percent_decode p) ->
-    step_request c cache m t k = (XL [XN 400; XB errpage; XL []], cache).
+  forall (f : front) (c : pcfg) (st : pstate) (m t : bytes) (k : N) (p : bytes) (q : option bytes),
+    f_uri f t = Some (p, q) -> unsafe (percent_decode p) -> fc_coherent (pc_fs c) (snd st) ->
+    exists (body : bytes) (opens : list bytes) (fc' : fcache),
+      step_request_with f (fmt_std c) c st m t k = (XL [XN 400; XB body; XL []; x_list XB opens], (fst st, fc')) /\
+      (body = errpage \/ pc_fs c (error_path (pc_host c) 400) = Some body) /\
+      Forall (fun o => In o (open_name (pc_tree c) (error_path (pc_host c) 400))) opens /\
+      (forall f0, f0 <> error_path (pc_host c) 400 -> fc_get f0 fc' = fc_get f0 (snd st)).
 Proof. exact unsafe_step_lemma. Qed.
 
-(** 8. When the CORS Prime extensions produce no override for a request, the host answers it (and
-    updates its cache) exactly as the same host WITHOUT any path-bound Prepare extension whose key
-    contains "./" would: the internal routes do not exist for such a request, in any cache state. *)
+(** 8. When the CORS Prime extensions produce no override for a request ([f_kind]: with kvarn's HTTP/1 readers an
+    [Origin] header naming the site itself counts as foreign when the request target lengthens the URI's
+    authority), the host answers it (and updates its caches) exactly as the same host WITHOUT any path-bound
+    Prepare extension whose key contains "./" would: the internal routes do not exist for such a request, in
+    any state, through any front end. *)
 Theorem internal_routes_need_override :
-  forall (c : pcfg) (cache : cache_t) (m t : bytes) (k : N),
-    benign_host (pc_host c) -> override_of (pc_default_ext c) m k = None ->
-    step_request (strip_internal c) cache m t k = step_request c cache m t k.
+  forall (f : front) (c : pcfg) (st : pstate) (m t : bytes) (k : N),
+    benign_host (pc_host c) -> override_of (pc_default_ext c) m (f_kind f t k) = None ->
+    step_request_with f (fmt_std (strip_internal c)) (strip_internal c) st m t k = step_request_with f (fmt_std c) c st m t k.
 Proof. exact no_override_strip_lemma. Qed.
+
+(** 9. The definitions (from the proof files) that the statements above rest on, restated here with their
+    bodies: a statement is only as strong as the predicates it uses, and these are pinned like the theorems. *)
+Theorem def_unsafe : forall d : bytes,
+  unsafe d <-> ((exists a b, d = a ++ [c_dot; c_slash] ++ b) \/ ~ (exists r, d = c_slash :: r) \/ (exists r, d = c_slash :: c_slash :: r)).
+Proof. intros d. split; exact (fun H => H). Qed.
+Theorem def_silent : forall ev : list event,
+  silent ev <->
+  forallb (fun e => negb match e with EPrepareSingle _ | EPrepareRun _ | EPrepareFn | EFsRead _ => true | _ => false end) ev = true.
+Proof. intros ev. split; exact (fun H => H). Qed.
+Theorem def_benign_host : forall h : host_cfg,
+  benign_host h <->
+  ((has_dot_slash_b (percent_decode (h_ext_default h)) = false /\ hd_is c_slash (percent_decode (h_ext_default h)) = false) /\
+   (has_dot_slash_b (percent_decode (h_folder_default h)) = false /\ hd_is c_slash (percent_decode (h_folder_default h)) = false)).
+Proof. intros h. split; exact (fun H => H). Qed.
+Theorem def_fc_coherent : forall (rd : bytes -> option bytes) (fc : fcache),
+  fc_coherent rd fc <-> (forall k e, fc_get k fc = Some e -> e = rd k).
+Proof. intros rd fc. split; exact (fun H => H). Qed.
+Theorem def_read_paths : forall ev : list event,
+  read_paths ev = flat_map (fun e => match e with EFsRead f => [f] | EErrRead f => [f] | _ => [] end) ev.
+Proof. reflexivity. Qed.
+Theorem def_answer_ok : forall (c : pcfg) (P : pos) (x : xval),
+  answer_ok c P x <->
+  match x with
+  | XL [XN _; XB b; _; _] =>
+      b = errpage \/ b = cors_denied \/ b = [] \/ (exists k s, In (k, (b, s)) (pc_handlers c)) \/
+      (exists names : list bytes, names <> [] /\ Forall (fun s => proper_name s = true) names /\ descend (fst P) names = Some (File b)) \/
+      (exists status : N, pc_fs c (error_path (pc_host c) status) = Some b)
+  | _ => True
+  end.
+Proof.
+  intros c P x. unfold answer_ok, body_ok, inside, error_page_of.
+  repeat match goal with |- context [match ?y with _ => _ end] => is_var y; destruct y end; split; exact (fun H => H).
+Qed.
+Theorem def_strip_internal : forall c : pcfg,
+  pc_handlers (strip_internal c) = pc_handlers c /\ pc_fs (strip_internal c) = pc_fs c /\ pc_tree (strip_internal c) = pc_tree c /\
+  pc_host_header (strip_internal c) = pc_host_header c /\
+  pc_cache (strip_internal c) = pc_cache c /\ pc_fcache (strip_internal c) = pc_fcache c /\ pc_default_ext (strip_internal c) = pc_default_ext c /\
+  h_prepare_single (pc_host (strip_internal c)) = filter (fun k => negb (has_dot_slash_b k)) (h_prepare_single (pc_host c)) /\
+  h_path (pc_host (strip_internal c)) = h_path (pc_host c) /\ h_public (pc_host (strip_internal c)) = h_public (pc_host c) /\
+  h_errors (pc_host (strip_internal c)) = h_errors (pc_host c) /\ h_fs (pc_host (strip_internal c)) = h_fs (pc_host c) /\
+  h_redirect (pc_host (strip_internal c)) = h_redirect (pc_host c) /\ h_ext_default (pc_host (strip_internal c)) = h_ext_default (pc_host c) /\
+  h_folder_default (pc_host (strip_internal c)) = h_folder_default (pc_host c).
+Proof. intros c. repeat split. Qed.
+Theorem def_has_dot_slash_b : forall d : bytes, has_dot_slash_b d = true <-> exists a b, d = a ++ [c_dot; c_slash] ++ b.
+Proof. exact has_dot_slash_iff. Qed.
 
 (** Non-vacuity. *)
 Definition ex_tree : node :=
   Dir [(B "host", Dir [(B "public", Dir [(B "index.html", File (B "INDEX")); (B "a", Dir [(B "b.txt", File (B "AB"))])]);
+                       (B "errors", Dir [(B "404.html", File (B "E404"))]);
                        (B "secret.txt", File (B "SECRET"))]);
        (B "outside.txt", File (B "OUTSIDE"))].
 Definition ex_root : pos := (ex_tree, []).
 Definition ex_host : host_cfg :=
-  {| h_path := B "host"; h_public := B "public"; h_redirect := true; h_ext_default := B "html";
-     h_folder_default := B "index.html"; h_prepare_single := [B "/./cors_fail"; B "/./cors_options"] |}.
+  {| h_path := B "host"; h_public := B "public"; h_errors := B "errors"; h_fs := true; h_redirect := true;
+     h_ext_default := B "html"; h_folder_default := B "index.html"; h_prepare_single := [B "/./cors_fail"; B "/./cors_options"] |}.
 
 Example ex_accepted : sanitize_path (B "/a//b.txt") = Ok tt /\ sanitize_path (B "/..") = Ok tt /\
                       sanitize_path (B "/%252e%252e/secret.txt") = Ok tt.
@@ -175,16 +312,54 @@ Proof. repeat split; vm_compute; reflexivity. Qed.
 Example ex_unsafe : unsafe (percent_decode (B "/%2e%2e/%ff")).
 Proof. apply unsafe_b_iff. vm_compute. reflexivity. Qed.
 Example ex_serve_400 :
-  serve ex_host (read_path ex_root ex_root) MGet None (Some {| r_status := 403; r_body := None; r_from_cache := false |})
+  serve ex_host (read_path ex_root ex_root) MGet None (Some {| r_status := 403; r_body := None; r_err := None; r_from_cache := false |})
         (B "/./cors_fail")
-  = ({| r_status := 400; r_body := None; r_from_cache := false |}, [ESanitize; EPrime; EErrorPage 400]).
+  = ({| r_status := 400; r_body := None; r_err := None; r_from_cache := false |},
+     [ESanitize; EPrime; EErrorPage 400; EErrRead (B "host/errors/400.html")]).
 Proof. vm_compute. reflexivity. Qed.
 Example ex_serve_200 :
-  serve ex_host (read_path ex_root ex_root) MGet None None (B "/a/../index.html") =
-    ({| r_status := 400; r_body := None; r_from_cache := false |}, [ESanitize; EPrime; EErrorPage 400]) /\
+  fst (serve ex_host (read_path ex_root ex_root) MGet None None (B "/a/../index.html")) =
+    {| r_status := 400; r_body := None; r_err := None; r_from_cache := false |} /\
   fst (serve ex_host (read_path ex_root ex_root) MGet None None (B "/")) =
-    {| r_status := 200; r_body := Some (B "INDEX"); r_from_cache := false |}.
+    {| r_status := 200; r_body := Some (B "INDEX"); r_err := None; r_from_cache := false |}.
 Proof. split; vm_compute; reflexivity. Qed.
+(** the file cache: the first 404 reads the operator's page from disk and remembers it, the second takes
+    it from the file cache (nothing is handed to the operating system but the missing file itself) *)
+Example ex_error_page_cached :
+  serve_st ex_host (read_path ex_root ex_root) true [] MGet None None (B "/missing") =
+    ({| r_status := 404; r_body := None; r_err := Some (B "E404"); r_from_cache := false |},
+     [ESanitize; EPrime; EPrepareSingle (B "/missing"); EPrepareFn; EFsRead (B "host/public/missing"); EErrorPage 404;
+      EErrRead (B "host/errors/404.html")],
+     [(B "host/errors/404.html", Some (B "E404"))], [B "host/public/missing"; B "host/errors/404.html"]) /\
+  snd (serve_st ex_host (read_path ex_root ex_root) true [(B "host/errors/404.html", Some (B "E404"))] MGet None None (B "/missing")) =
+    [B "host/public/missing"] /\
+  fc_coherent (read_path ex_root ex_root) [(B "host/errors/404.html", Some (B "E404"))] /\
+  error_path ex_host 404 = B "host/errors/404.html".
+Proof.
+  split; [vm_compute; reflexivity|]. split; [vm_compute; reflexivity|]. split; [|vm_compute; reflexivity].
+  intros k e H. cbn [fc_get] in H. destruct (beq (B "host/errors/404.html") k) eqn:E; [|discriminate].
+  apply beq_eq in E. subst k. inversion H. vm_compute. reflexivity.
+Qed.
+Example ex_opened :
+  opened ex_tree (B "host/public/a//b.txt") = Some ([B "host"; B "public"; B "a"; B "b.txt"], false) /\
+  opened ex_tree (B "host/public/..") = Some ([B "host"], true) /\
+  opened ex_tree (B "host/public/../secret.txt") = Some ([B "host"; B "secret.txt"], false) /\
+  opened ex_tree (B "host/public/missing") = None /\
+  cwalk ex_tree [] (segments (h_path ex_host ++ [c_slash] ++ h_public ex_host)) = Some [B "public"; B "host"].
+Proof. repeat split; vm_compute; reflexivity. Qed.
+(** the hypothesis [benign_host] is needed: an operator whose folder_default is "%2e%2e/secret.txt" has
+    configured the host to serve a file outside the public directory for "/" *)
+Example confinement_without_benign_host_refuted :
+  exists h : host_cfg,
+    ~ benign_host h /\
+    fst (serve h (read_path ex_root ex_root) MGet None None (B "/")) =
+      {| r_status := 200; r_body := Some (B "SECRET"); r_err := None; r_from_cache := false |}.
+Proof.
+  exists {| h_path := B "host"; h_public := B "public"; h_errors := B "errors"; h_fs := true; h_redirect := true;
+            h_ext_default := B "html"; h_folder_default := B "%2e%2e/secret.txt"; h_prepare_single := [] |}.
+  split; [|vm_compute; reflexivity].
+  intros [_ [H _]]. vm_compute in H. discriminate.
+Qed.
 Example ex_internal_key : has_dot_slash (B "/./cors_fail") /\ B "/%2e/cors_fail" <> B "/./cors_fail" /\
                           sanitize_path (B "/%2e/cors_fail") = Err E_UNSAFE.
 Proof.
@@ -198,24 +373,65 @@ Example ex_one_decoding : decoded_for_use (B "/%252e%252e/x") = Some (B "/%2e%2e
 Proof. split; vm_compute; reflexivity. Qed.
 Example ex_benign : benign_host ex_host.
 Proof. exact benign_defaults. Qed.
+(** request targets in every form, as kvarn's HTTP/1 reader glues them to the Host header *)
+Example ex_target_forms :
+  target_uri (B "/../secret.txt") = Some (B "/../secret.txt", None) /\
+  target_uri (B "http://localhost/../secret.txt") = Some (B "//localhost/../secret.txt", None) /\
+  target_uri (B "*") = Some (B "/", None) /\ target_uri (B "../secret.txt") = Some (B "/secret.txt", None) /\
+  target_uri (B "@evil/../x?y") = Some (B "/../x", Some (B "y")) /\ target_uri (B "\..\secret.txt") = None /\
+  uri_parse (B "*") = Some (B "*", None) /\ uri_parse (B "example.com") = Some ([], None) /\
+  uri_parse (B "http://h/../x") = Some (B "/../x", None).
+Proof. repeat split; vm_compute; reflexivity. Qed.
 
 (** the fixture host of the examples as a pipeline configuration; a history with a cached file, a
     rejected traversal in two spellings, a double-encoded name that stays inside, and an alias step *)
+Definition ex_files : list (bytes * bytes) :=
+  [(B "host/public/index.html", B "INDEX"); (B "host/public/a/b.txt", B "AB"); (B "host/errors/404.html", B "E404");
+   (B "host/secret.txt", B "SECRET"); (B "outside.txt", B "OUTSIDE")].
 Definition ex_pcfg : pcfg :=
-  {| pc_default_ext := true; pc_cache := true; pc_host := ex_host; pc_fs := read_path ex_root ex_root;
-     pc_handlers := [] |}.
+  {| pc_default_ext := true; pc_cache := true; pc_fcache := true;
+     pc_host := {| h_path := run_dir ++ B "/host"; h_public := B "public"; h_errors := B "errors"; h_fs := true; h_redirect := true;
+                   h_ext_default := B "html"; h_folder_default := B "index.html";
+                   h_prepare_single := [B "/./cors_fail"; B "/./cors_options"] |};
+     pc_fs := read_path (fixture_root ex_files) (fixture_root ex_files); pc_tree := fixture_tree ex_files;
+     pc_host_header := B "localhost"; pc_handlers := [] |}.
 Example ex_history :
-  run_history ex_pcfg []
+  run_history ex_pcfg empty_state
     [OReq (B "GET") (B "/") 0; OReq (B "GET") (B "/index.html") 0; OReq (B "GET") (B "/../secret.txt") 0;
      OAlias (B "/index.html") (B "/%2e%2e/secret.txt"); OReq (B "GET") (B "/%2e%2e/secret.txt") 0;
-     OReq (B "GET") (B "/%252e%252e/") 0; OReq (B "GET") (B "/a/b.txt") 2; OReq (B "GET") (B "/./cors_fail") 0]
-  = [XL [XN 200; XB (B "INDEX"); XL [XB (B "pf")]]; XL [XN 200; XB (B "INDEX"); XL []];
-     XL [XN 400; XB errpage; XL []]; XL [XN 1]; XL [XN 400; XB errpage; XL []];
-     XL [XN 404; XB errpage; XL [XB (B "pf")]]; XL [XN 403; XB cors_denied; XL []]; XL [XN 400; XB errpage; XL []]].
+     OReq (B "GET") (B "/%252e%252e/") 0; OReq (B "GET") (B "/%252e%252e/x") 0; OReq (B "GET") (B "/a/b.txt") 2;
+     OReq (B "GET") (B "/./cors_fail") 0; OReq (B "GET") (B "http://localhost/../secret.txt") 0]
+  = [XL [XN 200; XB (B "INDEX"); XL [XB (B "pf")]; XL [XB (B "host/public/index.html")]];
+     XL [XN 200; XB (B "INDEX"); XL []; XL []];
+     XL [XN 400; XB errpage; XL []; XL []]; XL [XN 1]; XL [XN 400; XB errpage; XL []; XL []];
+     XL [XN 404; XB (B "E404"); XL [XB (B "pf")]; XL [XB (B "host/errors/404.html")]];
+     XL [XN 404; XB (B "E404"); XL [XB (B "pf")]; XL []];
+     XL [XN 403; XB cors_denied; XL []; XL []]; XL [XN 400; XB errpage; XL []; XL []];
+     XL [XN 400; XB errpage; XL []; XL []]].
 Proof. vm_compute. reflexivity. Qed.
+(** the same host through the other front ends: over HTTP/2 a [:path] without a leading '/' never becomes a
+    request (the h2 layer refuses it), "*" is the path "*" (refused with 400 by kvarn), a HEAD answer has no body
+    (and fills the response cache: "?x" is then the cached "/index.html") *)
+Example ex_fronts :
+  run_history_with front_h2raw (fmt_std ex_pcfg) ex_pcfg empty_state
+    [OReq (B "GET") (B "../secret.txt") 0; OReq (B "GET") (B "*") 0; OReq (B "HEAD") (B "/index.html") 0;
+     OReq (B "GET") (B "/%252e%252e/x") 0; OReq (B "GET") (B "?x") 0; OReq (B "CONNECT") (B "/") 0]
+  = [XL [XN 96]; XL [XN 400; XB errpage; XL []; XL []];
+     XL [XN 200; XB []; XL [XB (B "pf")]; XL [XB (B "host/public/index.html")]];
+     XL [XN 404; XB (B "E404"); XL [XB (B "pf")]; XL [XB (B "host/errors/404.html")]];
+     XL [XN 200; XB (B "INDEX"); XL []; XL []]; XL [XN 96]] /\
+  run_history_with front_h1 (fmt_std ex_pcfg) ex_pcfg empty_state [OReq (B "GET") (B "*") 1; OReq (B "GET") (B "a b") 0]
+  = [XL [XN 403; XB cors_denied; XL []; XL []]; XL [XN 96]] /\
+  (* a part of the path in the Host header *)
+  run_history_with (front_h1_h (B "localhost/..")) (fmt_std ex_pcfg) ex_pcfg empty_state [OReq (B "GET") (B "/secret.txt") 0]
+  = [XL [XN 400; XB errpage; XL []; XL []]] /\
+  uri_of (B "localhost/..") (B "/secret.txt") = Some (B "/../secret.txt", None) /\
+  uri_of (B "localhost?") (B "/../secret.txt") = Some (B "/", Some (B "/../secret.txt")).
+Proof. repeat split; vm_compute; reflexivity. Qed.
 Example ex_history_hyps :
-  benign_host (pc_host ex_pcfg) /\ wf_pos ex_root /\
-  resolve_path ex_root ex_root (h_path (pc_host ex_pcfg) ++ [c_slash] ++ h_public (pc_host ex_pcfg)) <> None.
+  benign_host (pc_host ex_pcfg) /\ wf_pos (fixture_root ex_files) /\
+  resolve_path (fixture_root ex_files) (fixture_root ex_files)
+    (h_path (pc_host ex_pcfg) ++ [c_slash] ++ h_public (pc_host ex_pcfg)) <> None.
 Proof. split; [exact benign_defaults|]. split; [constructor|vm_compute; discriminate]. Qed.
 Example ex_no_override : override_of true (B "GET") 0 = None /\ override_of true (B "GET") 2 = Some cors_fail.
 Proof. split; reflexivity. Qed.
